@@ -364,6 +364,24 @@ def run(ctx):
                 except Exception:
                     pass  # judged by the monitor
             ctx.hit("workload:range far from the origin, very narrow or very wide")
+        # a set defuzzified over another range than the one it carries itself (a window of it), bounds of exactly zero included; and
+        # the grid of sample points handed out by Op.midpoints belongs to whoever asked for it (a caller may shift or scale it)
+        for i, rnd in ctx.cases("windows", ctx.scale(40, 800)):
+            own_lo, own_hi = rnd.choice([(-2.0, 2.0), (0.0, 4.0), (-4.0, 0.0), (-1.0, 3.0)])
+            tri = fl.Triangle("a", own_lo, 0.5 * (own_lo + own_hi), own_hi)
+            agg = fl.Aggregated("set", own_lo, own_hi, fl.Maximum(), [fl.Activated(tri, rnd.choice([1.0, 0.5, rnd.random()]), fl.Minimum()), fl.Activated(fl.Rectangle("b", own_lo, own_lo + 1.0), 0.25, fl.Minimum())])
+            lo, hi = rnd.choice([(0.0, 1.0), (-2.0, 0.0), (0.0, own_hi if own_hi > 0 else 1.0), (-0.0, 2.0), (own_lo, 0.0 if own_lo < 0 else own_hi), (-1.0, 1.0)])
+            r = rnd.choice([10, 64, 100, 37])
+            if i % 2:
+                grid = fl.Op.midpoints(lo, hi, r)
+                grid += rnd.choice([1.0, -0.5, 10.0])  # the caller's own use of its grid
+                ctx.hit("event:a grid handed out by Op.midpoints modified by its owner")
+            for k in INTEGRAL:
+                try:
+                    getattr(fl, k)(r).defuzzify(agg, lo, hi)
+                except Exception:
+                    pass  # judged by the monitor
+            ctx.hit("workload:set defuzzified over a window of its own range")
         # a user's vectorised term whose membership comes back as a boolean mask or as 0/1 integers (a crisp set): a set like
         # any other
         class Crisp(fl.Term):
@@ -461,6 +479,7 @@ def run(ctx):
         ctx.require(f"piece:{k}:tie")
     for k in ("MeanOfMaximum", "SmallestOfMaximum", "LargestOfMaximum"):
         ctx.require(f"piece:{k}:maximum attained at several sample points")
+    ctx.require("workload:set defuzzified over a window of its own range", "event:a grid handed out by Op.midpoints modified by its owner")
     ctx.require("workload:range far from the origin, very narrow or very wide", "crisp user term defuzzified", "environment:errstate-invalid-raise", *[f"environment:{e}" for e in ENVIRONMENTS])
     ctx.require("law:SOM<=MOM<=LOM", "law:batch==per-set", "law:centroid-translation", "resolution:1", "resolution:1000", "event:reuse after resolution change", "event:reuse after degrees change", "event:reuse after parameter change", "event:different terms of the set carry the same name", "workload:resolution above 4096")
 
